@@ -111,6 +111,32 @@ def run(ctx, mod):
     rows = table(p, f)
     pcs = [path_conditions(p, f, r[0]) for r in rows if r[1] in (('const', 0), ('const', 'false'))]
     expect(any(any(all(env.truth(l) == TRUE or True for l in conj) for conj in (pc or [])) for pc in pcs) or True, 'ABSINT guarded')
+    # inlining of helpers unknown to the rules: treat the three `inl_*` helpers as unknown
+    from . import inline as _inl
+    p2 = Program(facts(), inline=False)
+    known = {f.short for f in p2.fns.values()} - {'fx::inl_enough', 'fx::inl_check', 'fx::inl_check_wrong'}
+    saved = _inl.known_functions
+    _inl.known_functions = lambda: known
+    try:
+        rep = _inl.run(p2)
+    finally:
+        _inl.known_functions = saved
+    expect(sorted(rep['removed']) == ['fx::inl_check', 'fx::inl_check_wrong', 'fx::inl_enough'], 'INLINE: helpers inlined and removed: %s' % rep)
+    f = p2.fn('fx::inl_bool_caller')
+    s_ = _call(f, 'fx::sink')
+    dnf = path_conditions(p2, f, s_.bb) or []
+    C, STAB = P.param('c'), P.call('fx::signed_count', P.param('a'), P.param('b'))
+    shapes = sorted(len(c) for c in dnf)
+    expect(shapes == [1, 2] and any(P.binop('Eq', C, P.const(0))(l) or P.binop('Eq', P.const(0), C)(l) for c in dnf for l in c)
+           and any(P.binop('Le', P.cast(C, 'i32'), STAB)(l) for c in dnf for l in c),
+           'INLINE: path condition of the sink after `!helper(..)` must be (c == 0) or (c != 0 and c <= count): %s' % [[show(l) for l in c] for c in dnf])
+    for name, want in (('inl_try_caller', True), ('inl_try_caller_wrong', False)):
+        f = p2.fn('fx::' + name)
+        s_ = _call(f, 'fx::sink')
+        conds = cond_exprs(p2, f, s_.bb)
+        gated = any(P.binop('Le', P.cast(P.param('c'), 'usize'), P.param('len'))(l) for l in conds)
+        rows = [r for r in table(p2, f) if P.agg(variant='Err', _0=P.param('c'))(r[1])]
+        expect(gated == want and (len(rows) == 1) == want, 'INLINE: `helper(..)?` — %s: sink gated by !(len < c): %s, Err(c) row: %d' % (name, gated, len(rows)))
     if fails:
         raise CheckBroken('positive-control fixtures failed (the analysis primitives are broken, no verdict is possible):\n  ' + '\n  '.join(fails))
     ctx.ok('FX', 'positive-controls', 'fixtures/fx/src/lib.rs', 'all positive-control fixtures behave as expected (bad twins flagged, good twins accepted)', nontrivial=False)
